@@ -118,7 +118,7 @@ def canon(root):
       if id(x) in ids:
         return ['ref', ids[id(x)]]
       ids[id(x)] = len(ids)
-      return ['var', type_name(type(x)), ids[id(x)], int(np.asarray(x.value)), meta_code(x.get_metadata())]
+      return ['var', type_name(type(x)), ids[id(x)], int(np.asarray(x.value)) % 2**64, meta_code(x.get_metadata())]
     if isinstance(x, nnx.Object):
       if id(x) in ids:
         return ['ref', ids[id(x)]]
